@@ -13,6 +13,7 @@ import Frost.Model.Dkg
 import Frost.Model.Refresh
 import Frost.Model.Repair
 import Frost.Model.Rerand
+import Frost.Model.Taproot
 
 namespace Frost.Driver
 open Frost
